@@ -118,6 +118,10 @@ int main(void)
   for (size_t i = 0; i < over->alloc_length; i++) o_copy[i] = over->file_entry[i];
 
   VACUITY(1, "inputs built");
+  char **b_groups = base->groups, **o_groups = over->groups;
+  const int b_gc = base->group_count, o_gc = over->group_count;
+  char *b_gcopy[4] = { base->groups[0], base->groups[1], base->groups[2], base->groups[3] };
+  char *o_gcopy[4] = { over->groups[0], over->groups[1], over->groups[2], over->groups[3] };
   econf_file *m = NULL;
   econf_err r = econf_mergeFiles(&m, base, over);
 
@@ -174,8 +178,22 @@ int main(void)
         __CPROVER_assert(!(gid_of(m->file_entry[i].group) == 0 && gid_of(m->file_entry[i - 1].group) != 0),
                          "C03: group-less keys stay group-less and first");
     __CPROVER_assert(m->path == NULL, "C17: a merged object has no path");
+    /* the result is well-formed: every entry's section is interned in the RESULT's own section list */
+    for (size_t i = 0; i < MAXE + MAXE; i++)
+      if (i < m->length) {
+        bool interned = false;
+        for (int g = 0; g < 4; g++)
+          if (g < m->group_count && m->groups[g] == m->file_entry[i].group) interned = true;
+        __CPROVER_assert(interned, "C03/C11: every merged entry's section belongs to the result's own section list");
+      }
   }
   /* both inputs are left unchanged */
+  __CPROVER_assert(base->groups == b_groups && base->group_count == b_gc && over->groups == o_groups && over->group_count == o_gc,
+                   "C03/C10: the section lists of both inputs are left unchanged");
+  for (int g = 0; g < 4; g++) {
+    if (g <= b_gc) __CPROVER_assert(base->groups[g] == b_gcopy[g], "C03/C10: base section list entries unchanged");
+    if (g <= o_gc) __CPROVER_assert(over->groups[g] == o_gcopy[g], "C03/C10: override section list entries unchanged");
+  }
   __CPROVER_assert(base->file_entry == b_arr && over->file_entry == o_arr &&
                    base->length == NB && over->length == NO, "C03/C10: inputs keep their entry arrays");
   for (size_t i = 0; i < base->alloc_length; i++)
